@@ -24,7 +24,7 @@ class Gen:
     def __init__(self, rnd: random.Random, opts: dict | None = None):
         self.rnd = rnd
         self.opts = dict(classes=True, loops=True, lists=True, strs=True, floats=True, ternary=True, bitwise=True,
-                         chains=False, enums=True, dicts=True, depth=3, ext=False, lit_concat=False)
+                         chains=False, enums=True, dicts=True, depth=3, ext=True, lit_concat=False)
         if opts:
             self.opts.update(opts)
         self.constructs: dict[str, int] = {}
@@ -507,7 +507,7 @@ def gen_modules(rnd: random.Random, n: int = 2, pkg: str = 'genpkg', opts: dict 
     for i in range(n):
         g = Gen(rnd, opts)
         g.uid = uid
-        deps = [e for e in exported if rnd.random() < .8] if exported else []
+        deps = [e for e in exported if rnd.random() < .6] if exported else []
         for mod, funcs, classes in deps:
             names = [f[0] for f in funcs] + [c['name'] for c in classes]
             if names:
@@ -519,7 +519,8 @@ def gen_modules(rnd: random.Random, n: int = 2, pkg: str = 'genpkg', opts: dict 
         nf0 = len(g.funcs)
         p = g.module(rnd.randint(1, 3))
         uid = g.uid
-        name = '%s.m%d' % (pkg, i)
+        # module names in string-prefix relation (m1 / m10 / m1x): bookkeeping keyed by path prefixes shows up
+        name = '%s.%s' % (pkg, ['m1', 'm2', 'm10', 'm1x', 'm20', 'm100'][i] if i < 6 else 'm%d' % i)
         out[name] = p
         exported.append((name, g.funcs[nf0:], list(g.classes)))
     return out
